@@ -73,7 +73,7 @@ def o191(ctx):
     if len(actm) != 1 or actm[0].op != "eq" or actm[0].args[1] != sym("test_value") or not looked_up:
         ctx.finding(q, "activity filter", "candidates must be restricted to points whose activity flag equals the requested value "
                     "(flags looked up at the candidate indices)", fn, m)
-    if len(dmin) != 1 or dmin[0].op != "gt" or dmin[0].args[1] != sym("dist_min") or not tm.has_call(dmin[0].args[0], ".query_radius"):
+    if len(dmin) != 1 or dmin[0].op != "lt" or dmin[0].args[0] != sym("dist_min") or not tm.has_call(dmin[0].args[1], ".query_radius"):
         ctx.finding(q, "minimum-distance filter", "admissible neighbours must be strictly farther than min_distance (distance > "
                     "min_distance: the interval is (min_distance, max_distance])", fn, m, extracted=tm.show(dmin[0])[:160] if dmin else None)
 
@@ -192,7 +192,8 @@ def o193(ctx):
     if not guard_ok:
         ctx.finding(q, ploop[0] if ploop else fl, "a chain may only be started from a particle whose 'remaining' flag is still set", ploop[0] if ploop else fl, m)
     # (c) temporary re-activation paired with de-activation in the same block
-    react = [n for n in ast.walk(fl) if isinstance(n, ast.Assign) and src(n).endswith("= True") and "[used_idx]" in src(n)]
+    react = [n for n in ast.walk(fl) if isinstance(n, ast.Assign) and isinstance(n.value, ast.Constant) and n.value.value is True
+             and isinstance(n.targets[0], ast.Subscript) and src(n.targets[0].value) in flags and isinstance(n.targets[0].slice, ast.Name)]
     ctx.count(1, {"temporary re-activation": [src(r)[:40] for r in react]})
     for r_ in react:
         b = block_of(m, r_)
@@ -201,10 +202,17 @@ def o193(ctx):
         if not later:
             ctx.finding(q, r_, f"the temporary re-activation {tgt} = True must be undone in the same block", r_, m)
     # (d) finished chain: class from the counter, counter incremented unconditionally, chain concatenated
-    cls_assign = [n for n in ast.walk(fl) if isinstance(n, ast.Assign) and src(n.targets[0]).startswith("ch_m.loc[:,") and isinstance(n.value, ast.Name)]
+    def _is_col_assign(n):
+        t = n.targets[0]
+        return (isinstance(n.value, ast.Name) and isinstance(t, ast.Subscript) and isinstance(t.value, ast.Attribute) and t.value.attr == "loc"
+                and isinstance(t.value.value, ast.Name) and isinstance(t.slice, ast.Tuple) and len(t.slice.elts) == 2
+                and isinstance(t.slice.elts[0], ast.Slice) and src(t.slice.elts[1]) == "store_idx1")
+
+    cls_assign = [n for n in ast.walk(fl) if isinstance(n, ast.Assign) and _is_col_assign(n)]
     if len(cls_assign) != 1:
         raise Unsupported("object-number assignment of the finished chain not recognised", fl)
     ca = cls_assign[0]
+    chain_tbl = ca.targets[0].value.value.id
     counter = ca.value.id
     b = block_of(m, ca)
     after = b[b.index(ca) + 1:]
@@ -214,7 +222,7 @@ def o193(ctx):
     if not inc:
         ctx.finding(q, ca, f"every finished chain must consume a fresh object number: {counter} must be incremented unconditionally in the block "
                     "that assigns it (a conditional increment lets two chains share a number)", ca, m)
-    fin = [s for s in b if isinstance(s, ast.Assign) and "pd.concat" in src(s.value) and "ch_m" in src(s.value) and any(t in src(s.value) for t in tables)]
+    fin = [s for s in b if isinstance(s, ast.Assign) and "pd.concat" in src(s.value) and chain_tbl in {x.id for x in ast.walk(s.value) if isinstance(x, ast.Name)} and any(t in src(s.value) for t in tables)]
     ctx.count(1)
     if len(fin) != 1:
         ctx.finding(q, ca, "the finished chain must be concatenated into the tomogram's chain table on the end-of-chain path", ca, m)
